@@ -257,6 +257,14 @@ func (g *c26fGen) str() string {
 		rs = append(rs, []rune{0xE9, 0x4E2D, 0x1F600}[g.rng.Intn(3)])
 	}
 	s := string(rs)
+	if g.rng.Chance(1, 12) {
+		// a Go string need not be valid UTF-8 (binary / Latin-1 keys, truncated sequences): %q writes
+		// such bytes as \xNN escapes, which must come back as the same single bytes
+		raw := []string{"\xff", "\x80", "\xc3", "\xe4\xb8", "\xfe\xff", "a\xa0b"}[g.rng.Intn(6)]
+		pos := g.rng.Intn(len(s) + 1)
+		s = s[:pos] + raw + s[pos:]
+		g.r.Cover("fwd-val:string-invalid-utf8")
+	}
 	for _, c := range s {
 		if c >= 0x80 && unicode.IsPrint(c) {
 			g.used = true
